@@ -1,16 +1,164 @@
-(* C15 — Reference counts track handles exactly (first part: the counter). *)
-From MptV Require Import Base.Mem C15.RefcountModel C15.RefcountSpec C15.RefcountCounter.
+(* C15 — Reference counts track handles exactly.
+   This file holds only the property theorems (each closed by [exact] of a lemma proved
+   elsewhere), their non-vacuity examples and Print Assumptions.
+
+   Reading guide (C15/RefcountModel.v).  [raise]/[lower] transcribe mpt_refcount_raise/lower on a
+   64 bit field ([W] = 2^64, [CMAX] = 2^64-1).  A state [st] holds the objects created so far
+   ([ocnt] counter field, [odead] destroyed, [oinner] a buffer handle the object owns, [oext]
+   handles the environment holds by having written the counter field), the handle slots [hs]
+   and [pend], the handles in local variables of the running function.  [handles s] is the
+   multiset (list) of ALL handles, [held s o] the number of handles on object [o].  [mrun init ops]
+   runs a history of the 24 operations (addref, unref, clone, assignment through conversion,
+   traits init/fini, reference array copy, array clone/clear, detach, rawdata array member, reply
+   defer, forced counters, reference<T> set_instance/assign/copy/move/detach) from the empty
+   state; [final init ops] is its last state, [None] after a use of a destroyed object ([Fault]).
+   All theorems quantify over ALL histories [ops] (induction over the list, no bound). *)
+From MptV Require Import Base.Mem C15.RefcountModel C15.RefcountSpec C15.RefcountCounter C15.RefcountInv
+  C15.RefcountSteps C15.RefcountOps C15.RefcountRun C15.RefcountAssign.
 Local Open Scope N_scope.
 
+(* ---- the counter ---- *)
+(* a counter at 0 (object in destruction) or at the maximum cannot be raised: failure (0) is
+   reported and the field keeps its value — no wrap; otherwise it is incremented and returned *)
 Theorem C15_raise_refuses_zero_and_max :
   forall c, c < W ->
     (c = 0 \/ c = CMAX -> raise c = (c, 0)) /\ (0 < c < CMAX -> raise c = (c + 1, c + 1)).
 Proof. exact raise_refuses. Qed.
 
+(* lower returns the remaining count; at 0 it reports (uintptr_t)-1 and does not wrap the field *)
 Theorem C15_lower_returns_remaining :
   forall c, c < W ->
     (0 < c -> lower c = (c - 1, c - 1)) /\ (c = 0 -> lower c = (0, CMAX)).
 Proof. exact lower_remaining. Qed.
 
+(* any history of set/raise/lower on the bare counter: the modular code equals the counter
+   written without modulus ([sraise]/[slower] of C15/RefcountSpec.v) *)
+Theorem C15_counter_refines_spec :
+  forall ops c, c < W -> Forall (fun o => match o with CSet v => v < W | _ => True end) ops ->
+    crun c ops = scrun c ops.
+Proof. exact (fun ops c => crun_spec ops c). Qed.
+
+(* ---- all histories ---- *)
+(* the counter of every live counted object equals the number of handles on it (slots, locals,
+   handles owned by other objects) plus the handles the environment forced; it never is 0 and
+   never leaves the 64 bit range *)
+Theorem C15_count_is_handles :
+  forall ops s, final init ops = Some s ->
+  forall o x, nth_error (objs s) o = Some x -> odead x = false -> cls_of (okind x) = Counted ->
+    ocnt x = held s o + oext x /\ 0 < ocnt x /\ ocnt x < W.
+Proof. exact count_is_handles_l. Qed.
+
+(* kinds that cannot be shared (geninfo, meta buffer, config root: addref = 0, callers clone) have
+   exactly one handle while they exist *)
+Theorem C15_unique_has_one_handle :
+  forall ops s, final init ops = Some s ->
+  forall o x, nth_error (objs s) o = Some x -> odead x = false -> cls_of (okind x) = Unique -> held s o = 1.
+Proof. exact unique_one_handle_l. Qed.
+
+(* no history performs an operation on a destroyed object (no use after free, no double free) *)
+Theorem C15_history_never_faults :
+  forall ops, exists s, final init ops = Some s /\ ~ In ObsFault (fst (mrun init ops)).
+Proof. exact never_faults_l. Qed.
+
+(* destroyed <-> no handle left (never earlier, never later); and no handle refers to a destroyed object *)
+Theorem C15_destroy_exactly_at_zero :
+  forall ops s, final init ops = Some s ->
+  (forall o x, nth_error (objs s) o = Some x -> is_static (okind x) = false ->
+     (odead x = true <-> held s o + oext x = 0)) /\
+  (forall o, In o (handles s) -> exists x, nth_error (objs s) o = Some x /\ odead x = false).
+Proof. exact destroy_exactly_at_zero_l. Qed.
+
+(* "never later" in the form LeakSanitizer observes: an object that no handle reaches is alive only
+   while the environment holds a forced count on it *)
+Theorem C15_unreachable_only_if_forced :
+  forall ops s, final init ops = Some s ->
+  forall o x, nth_error (objs s) o = Some x -> odead x = false -> is_static (okind x) = false ->
+    held s o = 0 -> 0 < oext x.
+Proof. exact unreachable_is_forced_l. Qed.
+
+(* the invariant is inductive: from ANY state that satisfies it (not only reachable ones) every
+   operation succeeds without fault and re-establishes it with no handle left in a local *)
+Theorem C15_step_preserves_invariant :
+  forall s o, Good s -> exists s' t, step s o = Ok (s', t) /\ Good s' /\ same_kinds s s'.
+Proof. exact step_ok. Qed.
+
+(* ---- assignment through conversion: _mpt_metatype_wrap(&slot si, TypeMetaRef, &slot d) ---- *)
+(* old referent [a] and new referent [b] distinct, counted, [b] below the maximum: the target slot
+   holds [b] afterwards, all other slots are unchanged, the counter of [b] is raised by exactly one,
+   the counter of [a] lowered by exactly one, [a] is destroyed iff that was its last handle, no
+   other object changes *)
+Theorem C15_assign_releases_old_once_retains_new_once :
+  forall s si d a b xa xb,
+  Good s -> (d < NSLOT)%nat ->
+  slot s si = Some b -> slot s d = Some a -> a <> b ->
+  nth_error (objs s) b = Some xb -> cls_of (okind xb) = Counted -> ocnt xb < CMAX ->
+  nth_error (objs s) a = Some xa -> cls_of (okind xa) = Counted -> oinner xa = None ->
+  exists s', p_conv s si d = Ok (s', OD) /\
+    slot s' d = Some b /\ (forall i, i <> d -> slot s' i = slot s i) /\ pend s' = [] /\
+    (exists xb', nth_error (objs s') b = Some xb' /\ ocnt xb' = ocnt xb + 1 /\ odead xb' = false) /\
+    (exists xa', nth_error (objs s') a = Some xa' /\ ocnt xa' = ocnt xa - 1 /\
+                 (odead xa' = true <-> ocnt xa = 1)) /\
+    (forall o, o <> a -> o <> b -> nth_error (objs s') o = nth_error (objs s) o).
+Proof. exact conv_counts. Qed.
+
+(* a new referent that cannot be shared (kind without counter, or counter at the maximum): the
+   conversion reports failure and changes no slot and no object *)
+Theorem C15_assign_refused_unchanged :
+  forall s si d b xb,
+  Good s -> slot s si = Some b -> nth_error (objs s) b = Some xb ->
+  (cls_of (okind xb) = Unique \/ (cls_of (okind xb) = Counted /\ ocnt xb = CMAX)) ->
+  exists s', p_conv s si d = Ok (s', OE) /\ hs s' = hs s /\ objs s' = objs s /\ pend s' = [].
+Proof. exact conv_refused. Qed.
+
+(* assigning the referent the target already holds: raised once, lowered once — nothing changes *)
+Theorem C15_assign_same_unchanged :
+  forall s si d b xb,
+  Good s -> (d < NSLOT)%nat -> slot s si = Some b -> slot s d = Some b ->
+  nth_error (objs s) b = Some xb -> cls_of (okind xb) = Counted -> ocnt xb < CMAX ->
+  exists s', p_conv s si d = Ok (s', OD) /\ hs s' = hs s /\ objs s' = objs s /\ pend s' = [].
+Proof. exact conv_same. Qed.
+
+(* ---- non-vacuity ---- *)
+Example C15_ex_raise_at_max : raise CMAX = (CMAX, 0) /\ raise 0 = (0, 0) /\ lower 0 = (0, CMAX)
+                              /\ raise (CMAX - 1) = (CMAX, CMAX) /\ lower 1 = (0, 0).
+Proof. vm_compute. repeat split. Qed.
+
+Example C15_ex_init_good : Good init.
+Proof. exact Good_init. Qed.
+
+(* a counted metatype shared twice, assigned over a geninfo (which is thereby destroyed), then all dropped *)
+Example C15_ex_history :
+  map (fun r => match r with Obs t d _ _ => Some (t, d) | ObsFault => None end)
+      (fst (mrun init [ONew KHCnt 0; OAddref 0 1; ONew KGen 2; OConv 0 2; OUnref 0; OUnref 1; OUnref 2]%nat))
+  = [Some (OD, [DCnt 1]); Some (ORet 2, [DCnt 2]); Some (OD, [DCnt 2; DUni]); Some (OD, [DCnt 3; DDead]);
+     Some (OD, [DCnt 2; DDead]); Some (OD, [DCnt 1; DDead]); Some (OD, [DDead; DDead])].
+Proof. vm_compute. reflexivity. Qed.
+
+(* the hypotheses of the assignment theorem are met by a reachable state: two counted metatypes *)
+Example C15_ex_assign_state :
+  exists s xa xb, final init [ONew KHCnt 0; ONew KReply 1]%nat = Some s /\
+    slot s 0%nat = Some 0%nat /\ slot s 1%nat = Some 1%nat /\
+    nth_error (objs s) 0%nat = Some xb /\ cls_of (okind xb) = Counted /\ ocnt xb < CMAX /\
+    nth_error (objs s) 1%nat = Some xa /\ cls_of (okind xa) = Counted /\ oinner xa = None.
+Proof. eexists _, _, _. vm_compute. repeat split. Qed.
+
+(* a counter forced to the maximum: the next share fails, the handle multiset is unchanged *)
+Example C15_ex_forced_max :
+  map (fun r => match r with Obs t d _ _ => Some (t, d) | ObsFault => None end)
+      (fst (mrun init [ONew KHCnt 0; OForce 0 CMAX; OAddref 0 1; OConv 0 2; OUnforce; OUnref 0]%nat))
+  = [Some (OD, [DCnt 1]); Some (OD, [DCnt CMAX]); Some (ORet 0, [DCnt CMAX]); Some (OE, [DCnt CMAX]);
+     Some (OD, [DCnt 1]); Some (OD, [DDead])].
+Proof. vm_compute. reflexivity. Qed.
+
 Print Assumptions C15_raise_refuses_zero_and_max.
 Print Assumptions C15_lower_returns_remaining.
+Print Assumptions C15_counter_refines_spec.
+Print Assumptions C15_count_is_handles.
+Print Assumptions C15_unique_has_one_handle.
+Print Assumptions C15_history_never_faults.
+Print Assumptions C15_destroy_exactly_at_zero.
+Print Assumptions C15_unreachable_only_if_forced.
+Print Assumptions C15_step_preserves_invariant.
+Print Assumptions C15_assign_releases_old_once_retains_new_once.
+Print Assumptions C15_assign_refused_unchanged.
+Print Assumptions C15_assign_same_unchanged.
